@@ -138,8 +138,13 @@ Definition split_val (pol : N) (v : val) : list val :=
   | VM m => map VM (split_map pol m)
   end.
 
-Definition render (m : amap) : string :=
-  concat_strings (map (fun e => key_str (fst e) +++ "="%string +++ snd e +++ ";"%string) (ins_all m [])).
+(* every entry of the map in the order of its keys: "path=value;" for a string, "path/;" for
+   the marker of a nested map *)
+Definition render_entry (e : tkey * string) : string :=
+  if is_marker (snd (fst e)) then tkey_str (fst e) +++ "/;"%string
+  else tkey_str (fst e) +++ "="%string +++ snd e +++ ";"%string.
+
+Definition render (m : amap) : string := concat_strings (map render_entry (ins_all m [])).
 
 (* ------------------------------------------------------------------ harness nodes *)
 (* kind: 0 string->string, 1 map->string, 2 string->map, 3 map->map
@@ -157,8 +162,8 @@ Definition f_spec (sp : nspec) (x : val) : res val :=
   match ns_kind sp, x with
   | 0%N, VS s => Ok (VS (ns_tag sp +++ "("%string +++ s +++ ")"%string))
   | 1%N, VM m => Ok (VS (ns_tag sp +++ "{"%string +++ render m +++ "}"%string))
-  | 2%N, VS s => Ok (VM (ins_all [(ns_k1 sp, ns_tag sp +++ "<"%string +++ s); (ns_k2 sp, s +++ ">"%string)] []))
-  | 3%N, VM m => Ok (VM [(ns_k1 sp, ns_tag sp +++ "{"%string +++ render m +++ "}"%string)])
+  | 2%N, VS s => Ok (VM (ins_all [(kstr (ns_k1 sp), ns_tag sp +++ "<"%string +++ s); (kstr (ns_k2 sp), s +++ ">"%string)] []))
+  | 3%N, VM m => Ok (VM [(kstr (ns_k1 sp), ns_tag sp +++ "{"%string +++ render m +++ "}"%string)])
   | _, _ => Err e_type
   end.
 
@@ -178,16 +183,16 @@ Fixpoint upto_bad (s : stream val) : stream val * bool :=
 Definition live_T (sp : nspec) (s : stream val) : stream val :=
   let pre := match ns_kind sp with
              | 0%N => VS (ns_tag sp +++ "("%string)
-             | _ => VM [(ns_k1 sp, ns_tag sp +++ "<"%string)]
+             | _ => VM [(kstr (ns_k1 sp), ns_tag sp +++ "<"%string)]
              end in
   let suf := match ns_kind sp with
              | 0%N => VS ")"%string
-             | _ => VM [(ns_k2 sp, ">"%string)]
+             | _ => VM [(kstr (ns_k2 sp), ">"%string)]
              end in
   let fw := fun it => match it with
                       | Val (VS c) => match ns_kind sp with
                                       | 0%N => Val (VS c)
-                                      | _ => Val (VM (ins_all [(ns_k1 sp, c); (ns_k2 sp, c)] []))
+                                      | _ => Val (VM (ins_all [(kstr (ns_k1 sp), c); (kstr (ns_k2 sp), c)] []))
                                       end
                       | Val (VM _) => Bad e_type
                       | Bad e => Bad e
@@ -467,10 +472,13 @@ Fixpoint calls_stream (p : prog) (x : val) : list (N * par) :=
    and F-C04c): a fan-in whose sources share a key, an input key that no chunk carries, a
    field mapping from a map key that no chunk carries.
    [dom_ok p x] follows the value run on input x and is false iff it meets one of them. *)
+(* (every map value of a run is free of type conflicts — one Go map cannot hold a string
+   and a map under the same key —; the condition is part of [fanin_ok] because the values
+   of the model are lists of entries, which could) *)
 Definition fanin_ok (ys : list val) : bool :=
   match ys with
   | [] | [_] => true
-  | _ => match all_map ys with Some ms => disjoint_keys [] ms | None => false end
+  | _ => match all_map ys with Some ms => disjoint_keys [] ms && forallb mcons ms | None => false end
   end.
 
 Definition inkey_ok (w : wrap) (x : val) : bool :=
@@ -478,7 +486,7 @@ Definition inkey_ok (w : wrap) (x : val) : bool :=
   | None => true
   | Some k =>
       match (match w_pre w with Some (_, h) => vI h x | None => Ok x end) with
-      | Ok (VM m) => mhas k m
+      | Ok (VM m) => match m_get k m with Some _ => true | None => false end
       | Ok (VS _) => false
       | _ => true
       end
